@@ -297,6 +297,39 @@ func c20Calls(thorough bool) []jcall {
 			}
 		}
 	}
+	// fractional numbers are truncated, not rounded and not rejected: every numeric argument at v+f, with v on
+	// and next to step / window boundaries
+	for _, f := range []float64{0.1, 0.49, 0.5, 0.51, 0.9, 0.999999} {
+		for _, v := range []float64{0, 1, 28, 29, 30, 58, 59, 60, 1111111109, 4294967295, 4294967296} {
+			x := v + f
+			for ai, al := range []string{"SHA1", "SHA256", "SHA512"} {
+				an := refAlgo(al)
+				add("fractional", "generateHOTP", u, x, "6", al)
+				for _, per := range []any{1, 30, 60, 29.5, 30.9, 1.5} {
+					add("fractional", "generateTOTP", u, x, "8", al, per)
+				}
+				if ai > 0 && f != 0.5 && f != 0.9 {
+					continue
+				}
+				for dist := int64(-2); dist <= 2; dist++ {
+					if int64(v)+dist < 0 {
+						continue
+					}
+					add("fractional", "validateHOTP", u, ref.HOTP(c20Key, uint64(int64(v)+dist), 6, an), x, "6", al, 1)
+					add("fractional", "validateHOTP", u, ref.HOTP(c20Key, uint64(int64(v)+dist), 6, an), v, "6", al, 1+f)
+					st := int64(ref.Step(int64(v), 30))
+					if st+dist >= 0 {
+						add("fractional", "validateTOTP", u, ref.HOTP(c20Key, uint64(st+dist), 6, an), x, "6", al, 1, 30)
+						add("fractional", "validateTOTP", u, ref.HOTP(c20Key, uint64(st+dist), 6, an), v, "6", al, 1+f, 30+f)
+						add("fractional", "validateTOTP", u, ref.HOTP(c20Key, uint64(st+dist), 6, an), x, "6", al, 0, 30)
+					}
+					if int64(v)+dist >= 0 {
+						add("fractional", "validateTOTP", u, ref.HOTP(c20Key, uint64(int64(v)+dist), 6, an), x, "6", al, 0, 1)
+					}
+				}
+			}
+		}
+	}
 	// undecodable secrets (must be answered with 'error:' every time) and every call issued twice in a
 	// row / alternated with its neighbour: a remembered argument or result must never answer the next call
 	bad := []string{"!!!notbase32", "MZXW6YTB0", "A", "ABC=====", "ıııııııı"}
